@@ -184,6 +184,12 @@ def _defect(sb):
 def judge_C13(mm):
     """Documented grammar (decidable fragment) against the implementation's verdict on a pattern string."""
     f = mm['case'].split('\t')
+    if f[0] == 'parse':
+        sb = b'' if f[1] == '-' else bytes.fromhex(f[1])
+        if _documented(sb) and b'*' not in sb and mm['impl'].startswith('none'):
+            return ('a wildcard-free pattern of the documented form, presented verbatim as an Origin, is not even parsed by the '
+                    'request-side lexer (so it cannot be allowed): %r (%d bytes)' % (sb[:80], len(sb)))
+        return None
     if f[0] != 'pattern':
         return None
     sb = b'' if f[1] == '-' else bytes.fromhex(f[1])
